@@ -710,7 +710,12 @@ impl<'de, R: Read<'de>> Parser<R> {
                     let name = self.parse_symbol()?;
                     self.symbol_token(name)
                 } else {
-                    return Err(self.peek_error(ErrorCode::ExpectedSomeValue));
+                    // Consume the offending byte: a caller that carries on
+                    // after the error must not be handed the same byte, and
+                    // the same error, forever.
+                    let err = self.peek_error(ErrorCode::ExpectedSomeValue);
+                    self.eat_char();
+                    return Err(err);
                 }
             }
         };
